@@ -90,4 +90,8 @@ class C18(Check):
         return replay_sendmsg.replay_c18(name, model, rec)
 
 
+    def bounded_stand_in(self, tier, undecided):
+        from checks import native
+        return native.stand_in(['C13.'], tier, undecided)
+
 CHECK = C18()
